@@ -724,7 +724,7 @@ def _run(case, twin_of=None):
 # ---------------------------------------------------------------------------------------------- prop
 class C10(Prop):
     id = "C10"
-    lean_modules = ["VivModel.Props.C10"]
+    lean_modules = ["VivModel.Props.C10", "VivModel.Props.C10Src"]
     build_targets = ["VivModel.Model.Clock", "VivModel.Model.Proto"]
     driver = "C10"
     technique = ("Lean 4 proof (invariant J over every schedule of modifier outputs, births and move-to-end requests – incl. "
